@@ -88,6 +88,7 @@ MC_RUNS = {
     "MC_StepDeep":    ("MC_StepDefs.tla", "MC_StepDeep.cfg", ("thorough",), 14),
     "MC_StepMemo":    ("MC_StepDefs.tla", "MC_StepMemo.cfg", ("quick", "thorough"), 12),
     "MC_Mut":         ("MC_Mut.tla", "MC_Mut.cfg", ("quick", "thorough"), 8),
+    "MC_Heap":        ("Heap.tla", "MC_Heap.cfg", ("quick", "thorough"), 8),
 }
 
 def spec_key(extra=""):
